@@ -157,14 +157,15 @@ CHECKS = {
        "C03_exactly_once (pairwise distinct arguments are never passed to two successful calls; both stated on the "
        "output stream the differential compares), C03_all_delivered_at_rest, C03_all_delivered_when_nothing_can_move "
        "(AtRest - no zero-time step enabled, no timed event pending - implies everything submitted was delivered: the "
-       "machine never stops short; the driver reports rest= for every program), from the 21-clause "
+       "machine never stops short; the driver reports rest= for every program) and C07_C03_left_alone_everything_completes "
+       "(it always does come to rest: lexicographic termination measure, Buffer/Terminates.lean), from the 21-clause "
        "machine invariant K (Buffer/Invariant.lean, InvStep.lean: preserved by every zero-time step, timed event "
        "and input); plus the step theorems C03_kept_on_failure, C03_delivered_on_success, addInputs_superset. Tied "
        "to BufferAsyncCalls by a virtual-time differential over random timed programs; monitor: every submitted "
        "element reaches exactly one successful call, nothing unsubmitted is delivered, the call after a failed one "
        "is a superset",
-  note=NOTE_COMMON + "Partial: 'eventually at rest' (termination of the retry loop) is decided by the differential and "
-       "the monitor, not by a theorem. Foreign submitting threads: "
+  note=NOTE_COMMON + "'Eventually' is a theorem of the model for finite outcome scripts and finite producers "
+       "(ticks_reach_rest); that the real loop makes the same moves is the differential. Foreign submitting threads: "
        "the machine takes their two halves as inputs (fclear / fput) and the theorems cover programs containing them; on "
        "the real code 1..2 foreign threads are explored under the baton scheduler (schedule point at every access to "
        "the shared flag) and judged by the monitor only. Holds only after fix 30ffe8c (F10).",
@@ -181,7 +182,13 @@ CHECKS = {
        "blocked in q.join() or on the flag, the flag is set and the daemon is idle with an empty queue - a wait() can "
        "only fail to return if the machine runs for ever, never because it stopped with a waiter left behind; "
        "C07_open_foreign_clear_blocks shows the hypothesis on foreign clears is needed; atRest_iff ties the driver's "
-       "rest= flag to the hypothesis); C07_shutdown_partial (cancelling the daemon "
+       "rest= flag to the hypothesis); C07_C03_left_alone_everything_completes (Buffer/Terminates.lean: every move of the machine "
+       "left alone - a zero-time step of the daemon, else the earliest timed event; runProgram's drain iterates exactly "
+       "these, C07_runProgram_is_ticks - strictly decreases a lexicographic measure (failures still in the outcome "
+       "script, producers queued or captured, position in the attempt), so from every reachable state finitely many "
+       "moves lead to rest, where everything submitted has been delivered and every wait() issued has returned: the "
+       "'always returns once the function can succeed' clause as a theorem, for finite outcome scripts and finite "
+       "producers); C07_shutdown_partial (cancelling the daemon "
        "terminates it in the idle and loading phases) and C07_counterexample_shutdown_{timer_armed,function_running,"
        "loading_captured} (`decide`d model runs in which the cancellation is swallowed and the daemon lives on: the "
        "full shutdown clause is false of the code, finding F5). Tie: virtual-time differential (wait(cancel=True/"
@@ -189,7 +196,7 @@ CHECKS = {
        "producers, failing calls) with a barrier monitor; shutdown is exercised asyncio.run-style at instants spread "
        "over each program: the model's verdict (terminates / hangs, phase) must equal the real loop's",
   note=NOTE_COMMON + "Known findings (known_findings.json): shutdown hangs in phases timer-armed, function-running, "
-       "loading-captured. Partial: that the machine comes to rest (termination of the retry loop) is differential + hang detector + the driver's rest= flag, not a theorem; what rest looks like is (C07_wait_always_returns). "
+       "loading-captured. That the machine comes to rest is ticks_reach_rest (a theorem about the model); that the real loop makes the same moves is the differential + hang detector + the driver's rest= flag. "
        "Foreign-thread submit-then-wait_from_anywhere interleavings are explored on the real code under the baton "
        "scheduler and judged by the barrier monitor (not compared with the model line by line).",
   tech="Lean 4 proof (inductive invariant: barrier; phase theorem + decide counter-examples for shutdown) + "
